@@ -413,8 +413,13 @@ class AutoSerialize:
         elif isinstance(value, (int, float, str, bool, type(None))):
             # Scalars saved as attributes
             group.attrs[name] = value
-        elif hasattr(value, "dtype") and hasattr(value, "item"):
-            # Handle numpy scalar types (np.float32, np.int64, etc.)
+        elif (
+            hasattr(value, "dtype")
+            and hasattr(value, "item")
+            and not isinstance(value, (complex, np.complexfloating))
+        ):
+            # Handle numpy scalar types (np.float32, np.int64, etc.); complex scalars are not
+            # JSON-representable and take the fallback below, like Python complex numbers
             group.attrs[name] = value.item()
         elif hasattr(value, "__fspath__") or str(type(value)).startswith("<class 'pathlib."):
             # Handle pathlib.Path objects and other path-like objects
@@ -852,7 +857,13 @@ class AutoSerialize:
         # Helper to handle optional torch tensor restoration
         def maybe_tensor(group, key):
             arr = AutoSerialize._read_array_np(group, key)
-            return torch.from_numpy(arr) if group.attrs.get(f"{key}.torch_save") else arr
+            if group.attrs.get(f"{key}.torch_save"):
+                return torch.from_numpy(arr)
+            # values written by the dill fallback of _serialize_value (same probe as _recursive_load)
+            try:
+                return dill.loads(gzip.decompress(arr.tobytes()))
+            except Exception:
+                return arr
 
         if ctype in ("list", "tuple"):
             # Determine maximum index to reconstruct order and size
